@@ -65,6 +65,13 @@ def main():
                                 # commensurable pair: same unit or a convertible sibling
                                 r["u"] = l["u"] if rng.random() < 0.4 else rng.choice(UNITS)
                             cases.append({"op": op, "l": l, "r": r})
+    # a zero of another dimension on either side is still of another dimension (0, 0.0, -0.0, Decimal 0)
+    for zk, zm in (("int", ["int", "0", "1"]), ("float", ["float", "0", "1"]), ("float", ["float", "-0", "1"]), ("dec", ["dec", "0", "1"])):
+        for ua, ub in (([[None, "meter", 1]], [[None, "second", 1]]), ([["kilo", "gram", 1]], [[None, "meter", 2]]), ([[None, "meter", 1], [None, "second", -1]], [[None, "kelvin", 1]]), ([[None, "one", 1]], [[None, "meter", 1]])):
+            for op in ("add", "sub", "lt", "ge", "eq", "ne"):
+                cases.append({"op": op, "l": {"t": "qty", "m": ["int", "1", "1"], "u": ua}, "r": {"t": "qty", "m": zm, "u": ub}})
+                cases.append({"op": op, "l": {"t": "qty", "m": zm, "u": ub}, "r": {"t": "qty", "m": ["float", "5", "2"], "u": ua}})
+            cases.append({"op": "in_unit", "l": {"t": "qty", "m": zm, "u": ua}, "r": {"t": "unit", "u": ub}})
     for n in range(-4, 5):
         for k in ("int", "float", "dec"):
             for _ in range(reps):
